@@ -129,8 +129,9 @@ CLAIMED = {
         'records must be a prefix of the intact ones followed by a normal '
         'end or DiffXParseError, and a section yielded under a perturbed '
         'length must be exactly the specification\'s reading of that many '
-        'bytes. One open known finding (short read accepted, D3) is '
-        'classified tightly and reported as KNOWN-FINDING.',
+        'bytes. Sections of 64 KiB .. 200 KB are cut around every multiple '
+        'of 4 KiB .. 128 KiB. One open known finding (short read accepted, '
+        'D3) is classified tightly and reported as KNOWN-FINDING.',
         'Trusted: dxv/spec.py ref_parse/ref_content. Truncation = byte '
         'prefix; torn writes are outside the property.',
         'DESIGN.md section 5 C07, section 6 D3'),
@@ -144,8 +145,11 @@ CLAIMED = {
         'fed to the streaming reader, DiffX.from_bytes and '
         'DiffX.from_stream; every outcome is checked against the error '
         'contract and offending exceptions are bucketed by (API, type, '
-        'innermost library frame) so one run enumerates root causes. '
-        'Thorough adds 16 atheris shards with the same oracle in-target.',
+        'innermost library frame) so one run enumerates root causes; '
+        'yielded section ids must always form a legal walk. Loading from a '
+        'stream is repeated with an I/O fault injected at EVERY read/seek '
+        'call (stream closed, fault not swallowed). Thorough adds 16 '
+        'atheris shards with the same oracle in-target.',
         'Trusted: the budgeted stream as a stand-in for termination; line '
         'bound counts 0x0A and 0x25 bytes.',
         'DESIGN.md section 5 C08'),
@@ -156,7 +160,9 @@ CLAIMED = {
         'pairs x insertion positions; reader(extended) must equal '
         'reader(original) except that the affected records\' options gain '
         'exactly those pairs (integers converted), and both must equal the '
-        'specification\'s reading.',
+        'specification\'s reading. An exhaustive sweep adds every identifier '
+        'the library uses internally (harvested from its code objects) as '
+        'an option key on every header of a nine-section file.',
         'Trusted: dxv/foreign.py render. Unknown = not one of the eight '
         'option names the specification defines.',
         'DESIGN.md section 5 C12'),
@@ -166,7 +172,8 @@ CLAIMED = {
         'file; oracle = records equal the default-run / reference records',
         'Per file (foreign generator, writer programs with long lines, the '
         '7 spec examples) every header is lengthened byte by byte through '
-        'two full read-ahead blocks, the block size is rebound from the '
+        'two full read-ahead blocks, 1..200 empty lines are inserted before '
+        'every header, the block size is rebound from the '
         'harness to every value up to 2x the default and beyond the file '
         'size, plus a padding x block diagonal; thousands of reader runs '
         'per file must all give the same records.',
@@ -249,7 +256,9 @@ CLAIMED = {
         'Every legal prefix up to depth 12 (quick) / 16 (thorough) followed '
         'by each of 24 level x name ids and 8 out-of-vocabulary headers is '
         'fed to the real reader; accepted iff the table allows it, records '
-        'must carry the right ids/levels. Exhaustive up to the depth bound; '
+        'must carry the right ids/levels; shallow prefixes are also tried '
+        'with 1..300 empty lines before the candidate and with a '
+        'zero-length last section. Exhaustive up to the depth bound; '
         'random walks to depth 60 beyond.',
         'Trusted: dxv/spec.py table (two documented errata). Sections carry '
         'minimal valid content.',
@@ -262,7 +271,9 @@ CLAIMED = {
         '(quick) / 6 (thorough) and over 8 bytes up to 7 / 8, plus '
         'grammar-derived lines with byte edits and malformed prefixes, is '
         'read by the real reader and compared with a full-match grammar '
-        '(accept/reject, option values, integer conversion, exception type).',
+        '(accept/reject, option values, integer conversion, exception '
+        'type); the random part also uses CRLF files, repeated keys and '
+        'lines padded to the read-ahead block size.',
         'Trusted: the regex in dxv/spec.py (checked at start-up against the '
         'specification\'s own valid/invalid examples). Sliver values (1_0) '
         'and duplicate keys accept either rendering.',
@@ -274,7 +285,9 @@ CLAIMED = {
         'Every byte string over {CR,LF,NUL,SP,a} up to length 7 (quick) / 9 '
         '(thorough) x the 10 newline sequences the library uses is checked '
         'against the four identities of the property and an independent '
-        'splitter; longer token-built strings are sampled with Hypothesis. '
+        'splitter; newlines straddling block boundaries (96 B .. 128 KiB) '
+        'and result aliasing between calls are enumerated; longer '
+        'token-built strings are sampled with Hypothesis. '
         'Exhaustive up to the bound, sampled beyond.',
         'Trusted: bytes.count/find/endswith of CPython, dxv/spec.py '
         'split_keep. The newline set is the one the library can produce '
